@@ -17,7 +17,7 @@ PID = 'C14'
 RULE = ('cases = operation histories (<= 12 quick / <= 24 thorough steps) on a PairTable and a ValueTable over 1-4 types (type '
         'names of varying length, also non-string types); operations: set single key, set list x list, setUnset, apply in/out of place, '
         'mutate a stored value through a read handle, mutate the caller\'s object after assignment, check(), iterate (3 modes); '
-        'every written value has a unique id; non-trivial = history with >= 1 re-assignment of an already assigned key or a '
+        'every written value has a unique id, a third of them are falsy (and the ValueTable also gets builtin falsy values 0.0, 0, False, \'\', ()); non-trivial = history with >= 1 re-assignment of an already assigned key or a '
         'setUnset after a partial assignment; distinct = distinct (types, step list) digests')
 ASSUMPTIONS = ['copy isolation is asserted for PairTable only (ValueTable stores references; the property only names PairTable)',
                'symmetric=True (default) tables']
@@ -32,11 +32,15 @@ TYPESETS = [['A'], ['A', 'B'], ['A', 'B', 'C'], ['A', 'B', 'C', 'D'], ['polymer'
 
 class Val(object):
     """a mutable value with a unique id; deepcopy keeps uid and copies the payload list"""
-    __slots__ = ('uid', 'payload')
+    __slots__ = ('uid', 'payload', 'falsy')
 
     def __init__(self, uid):
         self.uid = uid
         self.payload = [uid]
+        self.falsy = (uid % 3 == 0)      # every third value is falsy (like 0.0, '', [] or an empty table): still a value, not "unset"
+
+    def __bool__(self):
+        return not self.falsy
 
     def __repr__(self):
         return 'Val(%r,%r)' % (self.uid, self.payload)
@@ -47,6 +51,7 @@ def bump(v):
         return None
     w = Val(v.uid + 1000000)
     w.payload = list(v.payload) + ['applied']
+    w.falsy = v.falsy
     return w
 
 
@@ -252,7 +257,56 @@ def run_pairtable(ctx, types, steps):
 def _mk(m):
     v = Val(m[0])
     v.payload = list(m[1])
+    v.falsy = (m[0] % 1000000) % 3 == 0
     return v
+
+
+class Plain(object):
+    """wraps a builtin (possibly falsy) value such as 0.0, 0, False, '' so that the model can compare by identity of the write"""
+    def __init__(self, uid):
+        self.uid = uid
+
+
+BUILTIN_FALSY = [0.0, 0, False, '', (), 0.25, 'x']
+
+
+def run_valuetable_builtin(ctx, types, rng):
+    """builtin values including falsy ones (a zero density is a value, not 'unset')"""
+    T = ValueTable(list(types), 'builtin')
+    model = {}
+    for step in range(6):
+        ctx.hook('vt.step')
+        if rng.random() < 0.6:
+            t = types[int(rng.integers(0, len(types)))]
+            v = BUILTIN_FALSY[int(rng.integers(0, len(BUILTIN_FALSY)))]
+            T[t] = v
+            model[t] = v
+            what = 'set %r=%r' % (t, v)
+        else:
+            v = float(rng.uniform(1, 2))
+            T.setUnset(v)
+            for a in types:
+                if a not in model:
+                    model[a] = v
+            what = 'setUnset(%r)' % v
+        for a in types:
+            got = T[a]
+            if a in model:
+                if type(got) is not type(model[a]) or got != model[a]:
+                    ctx.violation('vt:wrong-value', 'after %s: type %r reads %r, last assigned %r (falsy values are values, not "unset")' % (what, a, got, model[a]))
+                    return
+            elif got is not None:
+                ctx.violation('vt:wrong-value', 'after %s: never assigned type %r reads %r' % (what, a, got))
+                return
+        unset = any(a not in model for a in types)
+        try:
+            T.check()
+            raised = False
+        except ValueError:
+            raised = True
+        if raised != unset:
+            ctx.violation('vt:check-wrong', 'after %s: check() %s but the table %s an unset type' % (what, 'raised' if raised else 'did not raise', 'has' if unset else 'has no'))
+            return
 
 
 def run_valuetable(ctx, types, steps):
@@ -302,6 +356,7 @@ def run_case(ctx, case):
     steps = gen_steps(rng, types, int(case['nsteps']))
     reassign = run_pairtable(ctx, types, steps)
     run_valuetable(ctx, types, [s for s in steps if s[0] in ('set1', 'setlist', 'setunset')])
+    run_valuetable_builtin(ctx, types, rng)
     if reassign:
         ctx.nontrivial([types, steps])
     ctx.count('ntypes', len(types))
